@@ -188,7 +188,7 @@ class TailIntegralOfEachModel(Lemma):
     margins) was evaluated before: the result is sgn(x) times the second model's own marginal mass of I(x) -- nothing
     computed for one model may leak into another (caches)."""
     prop = "C12"
-    cases = (0.3, -0.3)
+    cases = (0.3, -0.3, 1, -2)          # the integer levels: rectangles are as often given with integer bounds
     name = "property:tail-integral-belongs-to-its-model"
 
     def prove(self, vc, x):
@@ -205,8 +205,14 @@ class TailIntegralOfEachModel(Lemma):
         mk = lambda tag: vc.obj(LC + "LevyCopulaModel", _full_indices=[0, 1], _dimension=2,
                                 _marginal_levy_measure=[vc.obj("rpylib.model.levymodel.levymodel:LevyMeasure", tag=tag)] * 2)
         A, B = mk("A"), mk("B")
-        ua = vc.method(A, "marginal_tail_integral", 0, x)
-        ub = vc.method(B, "marginal_tail_integral", 0, x)
+        nm = f"{self.name}[x={x}]"
+        from pyvc.sym import PyRaise
+        try:
+            ua = vc.method(A, "marginal_tail_integral", 0, x)
+            ub = vc.method(B, "marginal_tail_integral", 0, x)
+        except PyRaise as e:
+            vc.check(nm + f"::evaluates[{e.exc_type}]", False)
+            return
         lo, hi = (x, big) if x >= 0 else (-big, x)
         sgn = 1 if x >= 0 else -1
         nm = f"{self.name}[x={x}]"
@@ -217,8 +223,11 @@ class TailIntegralOfEachModel(Lemma):
         from contracts import battery
         a = battery.copula_model(2, "clayton", margins="hem")
         b = battery.copula_model(2, "clayton", margins="cgmy")
-        ua = a.marginal_tail_integral(0, x)
-        ub = b.marginal_tail_integral(0, x)
+        try:
+            ua = a.marginal_tail_integral(0, x)
+            ub = b.marginal_tail_integral(0, x)
+        except Exception as e:
+            return (True, {"x": x, "exception": f"{type(e).__name__}: {e}"})
         want = np.sign(x) * (b.models[0].levy_triplet.nu.integrate(x, np.inf) if x >= 0 else b.models[0].levy_triplet.nu.integrate(-np.inf, x))
         return (abs(ub - want) > 1e-12 * max(1.0, abs(want)), {"x": x, "first_model": float(ua), "second_model": float(ub), "second_model_own_tail": float(want)})
 
